@@ -69,7 +69,7 @@ def strategy(tier):
         lambda kv: {"kind": "dict", "req": False, "validator": None, "opts": {}, "keyf": kv[0], "valuef": kv[1]})
     both = st.fixed_dictionaries({
         "kind": st.just("str"), "req": st.booleans(), "validator": st.none(),
-        "opts": st.fixed_dictionaries({"transform_case": st.sampled_from(["lower", "upper"]),
+        "opts": st.fixed_dictionaries({"transform_case": st.sampled_from(["lower", "upper", "Lower", "UPPER", "LOWER", "Upper"]),
                                        "transform_strip": st.sampled_from(["a", "A", "xy", "Aa", "Z", "ab", "é", "ß"])},
                                       optional={"min_len": st.integers(0, 3), "max_len": st.integers(1, 6)})})
     return st.one_of(specs.leaf_spec().flatmap(case), specs.leaf_spec().flatmap(case), specs.leaf_spec().flatmap(case),
@@ -103,6 +103,14 @@ def exhaustive(tier):
             for side in ("min", "max"):
                 for v in vals:
                     yield {"spec": {"kind": kind, "req": False, "opts": {side: b}, "validator": None}, "value": v}
+    # every spelling of the case option (it is accepted case-insensitively) x cased text x options that look at the result
+    for spelling in ("lower", "Lower", "LOWER", "lOwEr", "upper", "Upper", "UPPER", "uPPer"):
+        for extra in ({}, {"choices": ["abc", "x"]}, {"choices": ["ABC", "X"]}, {"regex": "^[a-z]+$"}, {"regex": "^[A-Z]+$"}):
+            for kind, base in (("str", {}), ("loglevel", {"levels": ["abc", "ABC"]})):
+                if kind == "loglevel" and extra:
+                    continue
+                for v in ("AbC", "abc", "ABC", " x ", "X", "\u00df", ""):
+                    yield {"spec": {"kind": kind, "req": False, "opts": dict(base, transform_case=spelling, **extra), "validator": None}, "value": v}
     # byte strings of every length up to 130 and a few longer ones (line-wrapping encoders change behaviour at 57 / 76)
     for enc in ("base64", "hex"):
         for n in list(range(0, 131, 1 if tier != "quick" else 3)) + [57, 58, 76, 77, 114, 115, 171, 172, 300, 1000]:
